@@ -61,6 +61,18 @@ impl Walk {
         }
         let _ = mk().skip(1).take(n + 1).count();
         let _ = mk().step_by(3).take(n + 1).count();
+        // internal iteration and the short-circuiting searches (each is a provided method a type may override)
+        let _ = mk().fold(0usize, |a, _| a + 1);
+        let mut c = 0usize;
+        mk().for_each(|_| c += 1);
+        let _ = mk().find(|_| false).is_some();
+        let _ = mk().position(|_| false);
+        let _ = (mk().all(|_| true), mk().any(|_| false));
+        let _ = mk().max_by(|_, _| std::cmp::Ordering::Equal).is_some();
+        let _ = mk().min_by(|_, _| std::cmp::Ordering::Equal).is_some();
+        let mut it = mk();
+        let _ = it.by_ref().take(n / 2).count();
+        let _ = it.count();
     }
 
     fn header<'a, P: RtcpPacketParser<'a>>(&mut self, p: &P) {
